@@ -98,6 +98,11 @@ fn("ferr", "function ferr(k) return string is begin if k == 1 then begin raise b
 fn("fonce2", "function fonce2(s, a) return integer is begin if a and s.count() > 1 then raise efail; end if; return s.count(); end;", {})
 fn("ftf", 'function ftf(a) return integer is begin s = ""; t = tab(3, fonce2(s.concat("x"), a)); return t.count() * 10 + t.at(2); end;',
    {"ftf(true)": "err=EFAIL\n", "ftf(false)": "r=33\n"})
+# what one call did to its run-time context (trace mode switched on, a local re-typed by the branch it took) is gone for the next call
+fn("ftr", "function ftr(k) return integer is begin if k == 1 then trace true; end if; x = k + 1; if x > 5 then x = 0; end if; return x; end;",
+   {"ftr(0)": "r=1\n", "ftr(1)": "r=2\n", "ftr(7)": "r=0\n"})
+fn("flast", 'function flast(k) return integer is begin if k == 1 then last = "s"; return 0; end if; if k == 2 then last = 5; end if; return last + 1; end;',
+   {"flast(0)": "r=null\n", "flast(2)": "r=6\n", "flast(1)": "r=0\n"})
 fn("farg", "function farg(a, b) return integer is begin if isnull(c) then c = 0; end if; c = c + a * 10 + b; return c; end;", {})
 # farg reads c before assignment lexically -> must be rejected; handled separately
 
@@ -109,7 +114,7 @@ GROUPS = {
     "fx": ["fx"], "fs": ["fs"], "ft": ["ft"], "fxi": ["fxi"], "facc": ["facc"], "fl": ["fl"], "fact": ["fact"], "fib": ["fib"],
     "evod": ["ev", "od2"], "fm": ["fm"], "fms": ["fms"], "fmi": ["fmi"], "fhe": ["fhe"], "fue": ["fue"], "ffa": ["ffa"], "ffe": ["ffe"],
     "fle": ["fle"], "fwe": ["fwe"], "frn": ["frn"], "fo": ["fo0", "fo1", "fo2"], "fp": ["fp"], "fty": ["fty"], "fsafe": ["fsafe"], "fnr": ["fnr"],
-    "add": ["add"], "mark": ["mark"], "at": ["at"], "ferr": ["ferr"], "ftf": ["fonce2", "ftf"],
+    "add": ["add"], "mark": ["mark"], "at": ["at"], "ferr": ["ferr"], "ftf": ["fonce2", "ftf"], "ftr": ["ftr"], "flast": ["flast"],
 }
 
 
@@ -287,6 +292,15 @@ def check(case, res):
             k += 2
         probe_run, probe_out, dump = st[k], text(st[k + 1]), st[k + 2]
         fresh_run, fresh_out = st[k + 6], text(st[k + 7])
+        # the error stream too (statement traces go there): what the call writes does not depend on earlier calls
+        import re as _re
+
+        def errlines(step):
+            # trace lines begin with a time stamp
+            return [_re.sub(rb"^[0-9]+\.[0-9]+: ", b"", ln) for ln in unhex(step.get("err", "")).split(b"\n")]
+        if errlines(st[k + 1]) != errlines(st[k + 7]):
+            vs.append(Violation("history-dependence:%s:error-stream" % m["group"], "%s after %s writes %r to the error stream, in a fresh context %r" % (
+                m["probe"], m["hist"], unhex(st[k + 1].get("err", ""))[:200], unhex(st[k + 7].get("err", ""))[:200]), case))
         if probe_run.get("r") != fresh_run.get("r") or probe_out != fresh_out:
             vs.append(Violation("history-dependence:%s" % m["group"], "%s after %s gives %s %r, in a fresh context %s %r" % (
                 m["probe"], m["hist"], probe_run.get("r"), probe_out, fresh_run.get("r"), fresh_out), case))
